@@ -1,7 +1,7 @@
 """C10 - Crossover recombines parental genes position-wise and reports misuse as errors."""
 from .pat import ANY, Bind, Call, Param, CParam, Field, Through, Agg, Const, BinOp, match, find, callee_is, path_ends
 from .sym import short, subexprs
-from .common import (TryOk, TryErr, is_err_return, return_paths, peel, mentions, derives_from_self, rng_passthrough,
+from .common import (site_is, TryOk, TryErr, is_err_return, return_paths, peel, mentions, derives_from_self, rng_passthrough,
                      check_forwarder, closure_paths, cond_str, audit_panics, CallGraph, ctor_names)
 
 META = {
@@ -192,7 +192,7 @@ def check_uniform(ctx):
                     seen.add(0 if src == G(0) else 1 if src == G(1) else -1)
                 good = good and okr
                 # bool generic
-                term = F.fns[dr[0][4][0]].blocks[dr[0][4][1]]["term"] if dr else None
+                term = F.fns[dr[0][4][-2]].blocks[dr[0][4][-1]]["term"] if dr else None
                 good = good and term is not None and any(t.get("s") == "bool" for t in term.get("targs", []))
             ctx.check(good and seen == {0, 1}, "R10.5", "UniformXo<Vec>/per-position-coin-picks-same-position-gene", "parents used: %s" % sorted(seen), f.at(),
                       bad_detail="closure must draw one random::<bool>() and return first[pos].clone() or second[pos].clone(): " + "; ".join(short(q.ret, 5) for q in cps))
@@ -341,7 +341,7 @@ def guard_range_nonempty(ctx, s):
     fn = ctx.F.fns[s["fn"]]
     for p in ctx.paths(fn):
         for c in p.calls():
-            if c[4] == (s["fn"], s["block"]):
+            if site_is(c, s):
                 d = draw_domain(c)
                 if d and d[0] == "incl" and d[1][0] == "const" and d[1][3] == 0:
                     return True, "range " + short(c[3][1], 4)
@@ -364,7 +364,7 @@ def guard_vec_slices(ctx, s):
     fn = ctx.F.fns[s["fn"]]
     for p in ctx.paths(fn):
         for c in p.calls():
-            if c[4] == (s["fn"], s["block"]):
+            if site_is(c, s):
                 if len_guard(p) != "equal":
                     return False, "not under the length equality guard"
                 ranges = [x for x in subexprs(c) if x[0] == "agg" and path_ends(x[2], "Range::Range")]
@@ -397,7 +397,7 @@ def guard_uniform_index(ctx, s):
                 # index operand in the closure is its own parameter
                 for q in ctx.paths(fn):
                     for c in q.calls():
-                        if c[4] == (s["fn"], s["block"]):
+                        if site_is(c, s):
                             ok = ok and c[3][1] == ("param", 2)
                 return ok, "index = map parameter over 0..len under equal lengths"
     return False, "map over 0..len not found"
@@ -407,7 +407,7 @@ def guard_segment_swap(ctx, s):
     fn = ctx.F.fns[s["fn"]]
     for p in ctx.paths(fn):
         for c in p.calls():
-            if c[4] == (s["fn"], s["block"]):
+            if site_is(c, s):
                 sides = []
                 for a in c[3]:
                     a = peel(a, ())
